@@ -57,3 +57,10 @@ CHECK = {
                     "absolute comparisons involving the geodetic<->ECEF conversion allow 2 mm (1 mm of C01 plus 1 mm of C02)",
                     "g++ 12 ASan+UBSan runtime; asserts live (no -DNDEBUG)"],
 }
+
+# additionally: a reduced workload under valgrind memcheck, for uninitialised-value
+# use and invalid accesses that the ASan build cannot see; oracle verdicts are not taken from this
+# flavour (valgrind emulates long double with 64 bits), only memcheck's own reports and aborts
+CHECK["thorough"]["flavours"] = list(CHECK.get("flavours", ["asan"])) + ["memcheck"]
+CHECK["quick"]["flavours"] = list(CHECK.get("flavours", ["asan"])) + ["memcheck"]
+CHECK["flavour_cases"] = {"memcheck": {"quick": 2000, "thorough": 40000}}
